@@ -141,7 +141,7 @@ def runJac (name : String) (aliasS : String) (ps : List String) : Option String 
     let seen := (List.range n).map fun i => args.getD (alias.getD i i) zero
     pure ("ok " ++ s ++ " S=" ++ b2s (jacSpecOk name seen out))
 
-def runFieldOp (op : String) (a : List String) : Option String :=
+def runFieldOpRaw (op : String) (a : List String) : Option String :=
   match op, a with
   | "field.zero", [] => okFV zero
   | "field.set", [x] => do let x ← parseFV x; okFV (setVal x)
@@ -177,7 +177,8 @@ def runFieldOp (op : String) (a : List String) : Option String :=
   | "field.isodd", [x] => do let x ← parseFV x; pure ("ok " ++ b2s (isOdd x))
   | "field.eq", [x, y] => do let x ← parseFV x; let y ← parseFV y; pure ("ok " ++ b2s (equals x y))
   | "field.eqself", [x] => do let x ← parseFV x; pure ("ok " ++ b2s (equals x x))
-  | "field.exact", _ => some "ok exact"   -- the property's claim for every operation a formula performs
+  | "field.exact", _ => some "ok exact"
+  | "field.contract", _ => some "ok within"   -- the property's claim: formulas call the operations only within their bounds   -- the property's claim for every operation a formula performs
   | "jac.wrap", fn :: aliasS :: ps =>
     -- run the regenerated formula in lock-step with the exact twins; report the first wrapping operation
     match jacFn fn with
@@ -187,18 +188,18 @@ def runFieldOp (op : String) (a : List String) : Option String :=
         let args ← ps.mapM parseFV
         let alias ← parseAlias aliasS n
         let (_, w, _) := GoBk.IRW.runFnW GoBk.Gen.CurveIR.prog consts idx args alias
-        pure (match w with | none => "ok safe" | some line => "ok wrap " ++ line)
+        pure (match w with | none => "ok safe" | some line => "ok " ++ line)
   | "jac.wrapdec", [x, ybit] => do
     let x ← hexNat? x
     let yb ← if ybit == "1" then some true else if ybit == "0" then some false else none
     let (_, w, _) := GoBk.IRW.runFnW GoBk.Gen.CurveIR.prog consts GoBk.Gen.CurveIR.fn_decompressPoint
       [setByteSlice (natBE x)] [0] (fun i => i == 0 && yb)
-    pure (match w with | none => "ok safe" | some line => "ok wrap " ++ line)
+    pure (match w with | none => "ok safe" | some line => "ok " ++ line)
   | "jac.wraponcurve", [x, y] => do
     let x ← hexNat? x; let y ← hexNat? y
     let (_, w, _) := GoBk.IRW.runFnW GoBk.Gen.CurveIR.prog consts GoBk.Gen.CurveIR.fn_isOnCurve
       [setByteSlice (natBE x), setByteSlice (natBE y)] [0, 1]
-    pure (match w with | none => "ok safe" | some line => "ok wrap " ++ line)
+    pure (match w with | none => "ok safe" | some line => "ok " ++ line)
   | "jac.consts", [] => some ("ok " ++ fvStr fieldOneV ++ " " ++ fvStr fieldBV ++ " " ++ fvStr betaV)
   | "jac.oncurve", [x, y] => do
     -- hand-modelled head of IsOnCurve: bigAffineToField = SetByteSlice(x.Bytes()), same for y
@@ -226,5 +227,63 @@ def runFieldOp (op : String) (a : List String) : Option String :=
       | al :: ps => runJac (op.drop 4).toString al ps
       | [] => none
     else none
+
+/-! ### property-level oracle for the word-level field ops (C09/C10)
+
+The raw answer above is the REGENERATED code's; `S=` is the verdict of an independent check in plain natural
+number arithmetic of what the property promises — computed only when the operands are within the operation's
+documented magnitude contract (`MagLe`), since outside it the code promises nothing (the `.ooc` classes of the
+generators only compare wrap-around behaviour). -/
+
+def magLeB (m : Nat) (f : FV) : Bool :=
+  let w := (fvWords f).map (·.toNat)
+  (w.take 9).all (· ≤ 68157440 * m) && w.getD 9 0 ≤ 4194304 * m
+
+def minMag (f : FV) : Nat := ((List.range 65).find? fun m => magLeB m f).getD 1000
+def canonB (f : FV) : Bool :=
+  let w := (fvWords f).map (·.toNat)
+  (w.take 9).all (· < 67108864) && w.getD 9 0 < 4194304
+def normPreB (f : FV) : Bool := (fvWords f).all fun w => w.toNat ≤ 4292870144
+
+def fieldSpec (op : String) (a : List String) (res : String) : Bool :=
+  let pP := GoBk.Spec.P
+  let fvA := fun i => (a[i]?.bind parseFV).getD zero
+  let kA := fun i => (a[i]?.bind String.toNat?).getD 0
+  let rFV := (parseFV ((res.drop 3).toString)).getD zero      -- "ok <words>"
+  let rBit := res == "ok 1"
+  let x := fvA 0; let y := fvA 1
+  match op with
+  | "field.normalise" => !normPreB x || (fvVal rFV == fvVal x % pP && canonB rFV)
+  | "field.add" | "field.add2" | "field.add2.r1" | "field.add2.r2" =>
+    minMag x + minMag y > 63 || fvVal rFV == fvVal x + fvVal y
+  | "field.addself" | "field.add2.r12" => 2 * minMag x > 63 || fvVal rFV == 2 * fvVal x
+  | "field.addint" => minMag x + 1 > 63 || kA 1 > 68157440 || fvVal rFV == fvVal x + kA 1
+  | "field.neg" | "field.negval" => kA 1 > 63 || minMag x > kA 1 || (fvVal rFV + fvVal x) % pP == 0
+  | "field.mulint" => kA 1 * minMag x > 63 || fvVal rFV == kA 1 * fvVal x
+  | "field.mul" | "field.mul2" | "field.mul2.r1" | "field.mul2.r2" =>
+    minMag x > 8 || minMag y > 8 || fvVal rFV % pP == fvVal x * fvVal y % pP
+  | "field.mulself" | "field.mul2.r12" | "field.sq" | "field.sqval" =>
+    minMag x > 8 || fvVal rFV % pP == fvVal x * fvVal x % pP
+  | "field.inv" => minMag x > 8 || fvVal rFV % pP == GoBk.Spec.powMod (fvVal x) (pP - 2) pP
+  | "field.sqrt" => minMag x > 8 || fvVal rFV % pP == GoBk.Spec.powMod (fvVal x) ((pP + 1) / 4) pP
+  | "field.eq" => rBit == (fvWords x == fvWords y)
+  | "field.eqself" => rBit
+  | "field.iszero" => rBit == (fvWords x).all (· == 0)
+  | "field.isodd" => rBit == ((fvWords x).headD 0 % 2 == 1)
+  | "field.setbytes" | "field.setbytes32" =>
+    match a[0]?.bind unhexB with
+    | some b => fvVal rFV == beNat (b.take 32) && canonB rFV
+    | none => true
+  | "field.putbytes" | "field.bytes" =>
+    !canonB x || (match unhexB ((res.drop 3).toString) with | some b => beNat b == fvVal x && b.length == 32 | none => false)
+  | _ => true
+
+def runFieldOp (op : String) (a : List String) : Option String :=
+  match runFieldOpRaw op a with
+  | none => none
+  | some r =>
+    if op.startsWith "field." && op != "field.exact" && op != "field.contract" && r.startsWith "ok" then
+      some (r ++ " S=" ++ b2s (fieldSpec op a r))
+    else some r
 
 end Driver
